@@ -18,3 +18,213 @@ Proof.
   apply andb_prop in H1. destruct H1 as [K V]. unfold key_eqb in K. cbn [fst snd] in *. apply andb_prop in K. destruct K as [K1 K2].
   apply Z.eqb_eq in K1, K2, V. subst. f_equal. apply IH. rewrite HL. exact H2.
 Qed.
+
+(* ================= the general statement ================= *)
+From OM Require Import Maths.BinCodecProofs Maths.SortedMap.
+Require Import ZifyBool.
+
+Definition sw (k : Z * Z) : Z * Z := (snd k, fst k).
+Definition col (e : kv) : Z := fst (fst e).
+Definition row (e : kv) : Z := snd (fst e).
+Definition cntlt (c : Z) (l : list kv) : Z := Z.of_nat (length (filter (fun e => col e <? c) l)).
+
+Lemma to_colmajor_build es : to_colmajor es = build sw es [].
+Proof. reflexivity. Qed.
+
+Lemma cntlt_app c p q : cntlt c (p ++ q) = cntlt c p + cntlt c q.
+Proof. unfold cntlt. rewrite filter_app, app_length. lia. Qed.
+Lemma cntlt_all c l : (forall e, In e l -> col e < c) -> cntlt c l = Z.of_nat (length l).
+Proof.
+  unfold cntlt. induction l as [|e t IH]; intros H; [reflexivity|]. cbn [filter].
+  replace (col e <? c) with true by (specialize (H e (or_introl eq_refl)); lia). cbn [length]. rewrite Nat2Z.inj_succ, IH; [lia|]. intros x Hx. apply H. right; exact Hx.
+Qed.
+Lemma cntlt_none c l : (forall e, In e l -> c <= col e) -> cntlt c l = 0.
+Proof.
+  unfold cntlt. induction l as [|e t IH]; intros H; [reflexivity|]. cbn [filter].
+  replace (col e <? c) with false by (specialize (H e (or_introl eq_refl)); lia). apply IH. intros x Hx. apply H. right; exact Hx.
+Qed.
+Lemma cntlt_bounds c l : 0 <= cntlt c l <= Z.of_nat (length l).
+Proof. unfold cntlt. induction l as [|e t IH]; cbn [filter length]; [lia|]. destruct (col e <? c); cbn [length]; lia. Qed.
+Lemma cntlt_mono c c' l : c <= c' -> cntlt c l <= cntlt c' l.
+Proof.
+  intros H. unfold cntlt. induction l as [|e t IH]; cbn [filter]; [lia|].
+  destruct (col e <? c) eqn:A, (col e <? c') eqn:B; cbn [length]; lia.
+Qed.
+
+Lemma nth_repeat' {A} (x d : A) n k : (k < n)%nat -> nth k (repeat x n) d = x.
+Proof. revert k. induction n as [|n IH]; intros [|k] H; cbn; try lia; auto. apply IH. lia. Qed.
+
+(* columns never decrease along a list sorted by (column,row) *)
+Lemma sorted_cols_head e t : sorted_keys (e :: t) -> forall x, In x t -> col e <= col x.
+Proof.
+  intros Hs x Hx. assert (F := sorted_head_lt _ _ Hs). rewrite Forall_forall in F. specialize (F x Hx).
+  unfold key_ltb, col in *. destruct e as [[a b] v], x as [[a' b'] v']. cbn [fst snd] in *. lia.
+Qed.
+Lemma sorted_split pre e post : sorted_keys (pre ++ e :: post) ->
+  (forall x, In x pre -> col x <= col e) /\ (forall x, In x post -> col e <= col x) /\ sorted_keys (e :: post).
+Proof.
+  induction pre as [|p pre IH]; intros Hs.
+  - cbn [app] in Hs. split; [intros x []|]. split; [apply sorted_cols_head; exact Hs|exact Hs].
+  - cbn [app] in Hs. destruct (IH (sorted_tail _ _ Hs)) as (A & B & C). split; [|split; assumption].
+    intros x [<-|Hx]; [|apply A; exact Hx]. apply (sorted_cols_head _ _ Hs). apply in_or_app. right. left. reflexivity.
+Qed.
+
+(* ---- write: ir, data ---- *)
+Lemma write_loop_arrays l : forall cur cnt jc ir data,
+  let '(_, ir', data', _) := write_loop l cur cnt jc ir data in
+  ir' = ir ++ map row l /\ data' = data ++ map snd l.
+Proof.
+  induction l as [|[[j i] v] t IH]; intros cur cnt jc ir data; cbn [write_loop].
+  - rewrite !app_nil_r. split; reflexivity.
+  - specialize (IH j (cnt + 1) (if cur =? j then jc else jc ++ repeat cnt (Z.to_nat (j - cur))) (ir ++ [i]) (data ++ [v])).
+    destruct (write_loop t j (cnt + 1) _ (ir ++ [i]) (data ++ [v])) as [[[jc' ir'] data'] cur'].
+    destruct IH as [-> ->]. rewrite <- !app_assoc. split; reflexivity.
+Qed.
+
+(* ---- write: the column pointers are prefix counts ---- *)
+Definition WInv (pre : list kv) (cur : Z) (jc : list Z) : Prop :=
+  -1 <= cur /\ length jc = Z.to_nat (cur + 1) /\ (forall e, In e pre -> col e <= cur) /\
+  (forall c, 0 <= c <= cur -> nth (Z.to_nat c) jc 0 = cntlt c pre) /\
+  (cur = -1 \/ exists e, In e pre /\ col e = cur).
+
+Lemma write_loop_inv post : forall pre cur jc ir data,
+  WInv pre cur jc -> sorted_keys post -> (forall x, In x post -> cur <= col x) ->
+  let '(jc', _, _, cur') := write_loop post cur (Z.of_nat (length pre)) jc ir data in WInv (pre ++ post) cur' jc'.
+Proof.
+  induction post as [|[[j i] v] t IH]; intros pre cur jc ir data (H1 & H2 & H3 & H4 & H5) Hs Hge; cbn [write_loop].
+  - rewrite app_nil_r. repeat split; assumption.
+  - assert (Hj : cur <= j) by (apply (Hge ((j, i), v)); left; reflexivity).
+    set (e := ((j, i), v)). set (jc1 := if cur =? j then jc else jc ++ repeat (Z.of_nat (length pre)) (Z.to_nat (j - cur))).
+    assert (W : WInv (pre ++ [e]) j jc1).
+    { unfold WInv. split; [lia|]. split.
+      { unfold jc1. destruct (Z.eqb_spec cur j); [subst; exact H2|]. rewrite app_length, repeat_length, H2. lia. }
+      split.
+      { intros x Hx. apply in_app_or in Hx. destruct Hx as [Hx|[<-|[]]]; [specialize (H3 x Hx); lia|unfold col; cbn; lia]. }
+      split.
+      2:{ right. exists e. split; [apply in_or_app; right; left; reflexivity|reflexivity]. }
+      intros c Hc. rewrite cntlt_app. replace (cntlt c [e]) with 0 by (unfold cntlt, col, e; cbn [filter fst]; replace (j <? c) with false by lia; reflexivity).
+      rewrite Z.add_0_r. unfold jc1. destruct (Z_le_gt_dec c cur) as [Hle|Hgt].
+      - destruct (Z.eqb_spec cur j); [apply H4; lia|]. rewrite app_nth1 by lia. apply H4. lia.
+      - destruct (Z.eqb_spec cur j); [lia|]. rewrite app_nth2 by lia. rewrite nth_repeat' by lia.
+        symmetry. apply cntlt_all. intros x Hx. specialize (H3 x Hx). lia. }
+    replace (Z.of_nat (length pre) + 1) with (Z.of_nat (length (pre ++ [e]))) by (rewrite app_length; cbn [length]; lia).
+    specialize (IH (pre ++ [e]) j jc1 (ir ++ [i]) (data ++ [v]) W (sorted_tail _ _ Hs)).
+    rewrite <- app_assoc in IH. cbn [app] in IH. apply IH.
+    intros x Hx. apply (sorted_cols_head _ _ Hs x Hx).
+Qed.
+
+Definition JC (jc : list Z) (l : list kv) (nc : Z) : Prop :=
+  length jc = Z.to_nat (nc + 1) /\ forall c, 0 <= c <= nc -> nth (Z.to_nat c) jc 0 = cntlt c l.
+
+Lemma write_csc_spec nc ces : 0 <= nc -> sorted_keys ces -> (forall e, In e ces -> 0 <= col e < nc) ->
+  let '(jc, ir, data, cur) := write_loop ces (-1) 0 [] [] [] in
+  JC (jc ++ repeat (Z.of_nat (length ces)) (Z.to_nat (nc - cur))) ces nc /\ ir = map row ces /\ data = map snd ces.
+Proof.
+  intros Hnc Hs Hb.
+  assert (A := write_loop_arrays ces (-1) 0 [] [] []).
+  assert (I := write_loop_inv ces [] (-1) [] [] []). cbn [length Z.of_nat app] in I.
+  destruct (write_loop ces (-1) 0 [] [] []) as [[[jc ir] data] cur]. destruct A as [-> ->].
+  split; [|split; reflexivity].
+  assert (W : WInv ces cur jc).
+  { apply I; [|exact Hs|].
+    - unfold WInv. split; [lia|]. split; [reflexivity|]. split; [intros e []|]. split; [intros c Hc; lia|left; reflexivity].
+    - intros x Hx. specialize (Hb x Hx). lia. }
+  destruct W as (H1 & H2 & H3 & H4 & H5).
+  assert (Hc : cur < nc) by (destruct H5 as [->|[e [He <-]]]; [lia|apply Hb; exact He]).
+  unfold JC. split; [rewrite app_length, repeat_length, H2; lia|].
+  intros c Hcc. destruct (Z_le_gt_dec c cur) as [Hle|Hgt].
+  - rewrite app_nth1 by lia. apply H4. lia.
+  - rewrite app_nth2 by lia. rewrite nth_repeat' by lia. symmetry. apply cntlt_all.
+    intros x Hx. specialize (H3 x Hx). lia.
+Qed.
+
+(* ---- read ---- *)
+Lemma advance_spec jc k colx : forall fuel cc,
+  cc <= colx -> colx - cc <= Z.of_nat fuel -> 0 <= cc ->
+  (forall c, cc < c <= colx -> nth (Z.to_nat c) jc 0 <= k) -> k < nth (Z.to_nat (colx + 1)) jc 0 ->
+  advance fuel jc cc k = colx.
+Proof.
+  induction fuel as [|fuel IH]; intros cc H1 H2 H0 Hle Hgt; cbn [advance]; [lia|].
+  destruct (Z.eq_dec cc colx) as [->|Hn].
+  - replace (nth (Z.to_nat (colx + 1)) jc 0 <=? k) with false by lia. reflexivity.
+  - replace (nth (Z.to_nat (cc + 1)) jc 0 <=? k) with true by (specialize (Hle (cc + 1)); lia).
+    apply IH; try lia. intros c Hc. apply Hle. lia.
+Qed.
+
+Lemma last_nth (l : list Z) : last l 0 = nth (length l - 1) l 0.
+Proof.
+  induction l as [|a t IH]; [reflexivity|]. destruct t as [|b t']; [reflexivity|].
+  change (last (a :: b :: t') 0) with (last (b :: t') 0). rewrite IH. cbn [length].
+  replace (S (S (length t')) - 1)%nat with (S (length t')) by lia.
+  replace (S (length t') - 1)%nat with (length t') by lia. reflexivity.
+Qed.
+
+Lemma read_loop_spec nl nc jc ces : 0 <= nc -> JC jc ces nc -> sorted_keys ces ->
+  (forall e, In e ces -> 0 <= col e < nc /\ 0 <= row e < nl) ->
+  forall post pre cc acc, ces = pre ++ post -> 0 <= cc -> (forall x, In x post -> cc <= col x) ->
+  read_loop (map row post) (map snd post) (Z.of_nat (length pre)) cc jc nl nc acc = Ok (build sw post acc).
+Proof.
+  intros Hnc [JL JN] Hs Hb. induction post as [|e t IH]; intros pre cc acc E H0 Hcc; [reflexivity|].
+  cbn [map read_loop].
+  assert (Hlast : last jc 0 = Z.of_nat (length ces)).
+  { rewrite last_nth, JL. replace (Z.to_nat (nc + 1) - 1)%nat with (Z.to_nat nc) by lia. rewrite JN by lia.
+    apply cntlt_all. intros x Hx. apply Hb. exact Hx. }
+  rewrite Hlast. rewrite E at 1. rewrite app_length. cbn [length].
+  replace (Z.of_nat (length pre) <? Z.of_nat (length pre + S (length t))) with true by lia.
+  assert (Hsp : sorted_keys (pre ++ e :: t)) by (rewrite <- E; exact Hs).
+  destruct (sorted_split pre e t Hsp) as (Sp & St & Sett).
+  assert (Be : 0 <= col e < nc /\ 0 <= row e < nl) by (apply Hb; rewrite E; apply in_or_app; right; left; reflexivity).
+  assert (Adv : advance (length jc) jc cc (Z.of_nat (length pre)) = col e).
+  { assert (C1 : cc <= col e) by (apply Hcc; left; reflexivity).
+    assert (C2 : col e - cc <= Z.of_nat (length jc)) by (rewrite JL; lia).
+    assert (C4 : forall c, cc < c <= col e -> nth (Z.to_nat c) jc 0 <= Z.of_nat (length pre)).
+    { intros c Hc. rewrite JN by lia. transitivity (cntlt (col e) ces); [apply cntlt_mono; lia|].
+      rewrite E, cntlt_app. rewrite (cntlt_none (col e) (e :: t)).
+      + assert (B := cntlt_bounds (col e) pre). lia.
+      + intros x [<-|Hx]; [lia|apply St; exact Hx]. }
+    assert (C5 : Z.of_nat (length pre) < nth (Z.to_nat (col e + 1)) jc 0).
+    { rewrite JN by lia. rewrite E, cntlt_app. rewrite (cntlt_all (col e + 1) pre) by (intros x Hx; specialize (Sp x Hx); lia).
+      change (e :: t) with ([e] ++ t). rewrite cntlt_app. rewrite (cntlt_all (col e + 1) [e]) by (intros x [<-|[]]; lia).
+      assert (B := cntlt_bounds (col e + 1) t). cbn [length]. lia. }
+    exact (advance_spec jc _ (col e) (length jc) cc C1 C2 H0 C4 C5). }
+  rewrite Adv. replace ((row e <? nl) && (col e <? nc)) with true by lia.
+  replace (Z.of_nat (length pre) + 1) with (Z.of_nat (length (pre ++ [e]))) by (rewrite app_length; cbn [length]; lia).
+  rewrite (IH (pre ++ [e]) (col e)); [reflexivity|rewrite <- app_assoc; exact E|lia|exact St].
+Qed.
+
+Lemma find_in (l : list kv) k v : In (k, v) l -> find k l <> None.
+Proof.
+  induction l as [|[k1 v1] t IH]; intros H; [destruct H|]. destruct H as [H|H]; cbn [find].
+  - inversion H; subst. rewrite key_eqb_refl. discriminate.
+  - destruct (key_eqb k k1); [discriminate|]. apply IH. exact H.
+Qed.
+
+(* read_csc (write_csc m) = m for every strictly sorted map whose keys are within the dimensions: dimensions, entry
+   count, every stored value (the words of +0.0 and -0.0 included) come back *)
+Theorem csc_roundtrip nl nc es : 0 <= nl -> 0 <= nc -> sorted_keys es ->
+  (forall e, In e es -> 0 <= fst (fst e) < nl /\ 0 <= snd (fst e) < nc) ->
+  read_csc (write_csc nl nc es) = Ok (OSparse nl nc es).
+Proof.
+  intros Hnl Hnc Hs Hb. unfold write_csc, read_csc. rewrite to_colmajor_build.
+  set (ces := build sw es []).
+  assert (Sc : sorted_keys ces) by (apply build_sorted; exact I).
+  assert (Mem : forall e, In e ces -> 0 <= col e < nc /\ 0 <= row e < nl).
+  { intros [[j i] v] He. unfold col, row. cbn [fst snd].
+    assert (Fd : find (j, i) ces <> None) by (eapply find_in; eauto).
+    unfold ces in Fd. rewrite find_build in Fd. cbn [find] in Fd.
+    assert (G : forall (l : list kv) r0, (forall e, In e l -> 0 <= fst (fst e) < nl /\ 0 <= snd (fst e) < nc) ->
+                fold_left (fun r (e : kv) => if key_eqb (j, i) (sw (fst e)) then Some (snd e) else r) l r0 <> r0 ->
+                0 <= j < nc /\ 0 <= i < nl).
+    { induction l as [|e t IH]; intros r0 Hl Hne; [cbn in Hne; congruence|]. cbn [fold_left] in Hne.
+      destruct (key_eqb (j, i) (sw (fst e))) eqn:K.
+      - apply key_eqb_eq in K. destruct e as [[a b] w]. unfold sw in K. cbn [fst snd] in K. inversion K; subst.
+        specialize (Hl ((a, b), w) (or_introl eq_refl)). cbn [fst snd] in Hl. lia.
+      - apply (IH r0); [intros x Hx; apply Hl; right; exact Hx|exact Hne]. }
+    apply (G es None Hb Fd). }
+  assert (W := write_csc_spec nc ces Hnc Sc (fun e He => proj1 (Mem e He))).
+  destruct (write_loop ces (-1) 0 [] [] []) as [[[jc ir] data] cur]. destruct W as (J & -> & ->).
+  cbn [c_ir c_data c_jc c_nl c_nc].
+  change 0 with (Z.of_nat (length (@nil kv))) at 1.
+  rewrite (read_loop_spec nl nc _ ces Hnc J Sc Mem ces [] 0 []); [|reflexivity|lia|intros x Hx; apply Mem; exact Hx].
+  unfold ces. rewrite build_build; [reflexivity|intros [a b]; reflexivity|exact Hs].
+Qed.
